@@ -79,10 +79,10 @@ Lemma edit_err file k v : edit_header file k v = None -> file_after_edit file k 
 Proof. unfold file_after_edit. intros ->. reflexivity. Qed.
 
 Lemma edit_ok_bytes kc vc h data k v file' : wf_header h -> has_layout h = true ->
-  vc = false \/ (header_no_cont h = true /\ value_no_cont v = true) ->
+  vc = false \/ (header_no_cont h = true /\ value_no_cont v = true) -> value_utf8 v = true ->
   edit_header_with kc vc (fmt_header h ++ data) k v = Some file' -> edit_rewrites_value h data k v file'.
 Proof.
-  intros Hw Hl Hc He. destruct (edit_ok kc vc h data k v file' Hw Hl Hc He) as (h1 & old & h2 & v' & t & Eh & Ht & Ev & Wo & Wv & Wh & Ll & Ef).
+  intros Hw Hl Hc Hu He. destruct (edit_ok kc vc h data k v file' Hw Hl Hc Hu He) as (h1 & old & h2 & v' & t & Eh & Ht & Ev & Wo & Wv & Wh & Ll & Ef).
   exists h1, old, h2, v', t. do 8 (split; [assumption|]). cbv zeta. split.
   - rewrite Eh, fmt_header_split, (type_of_lookup _ _ Ht). reflexivity.
   - rewrite Ef, fmt_header_split, (type_of_lookup _ _ Ht). reflexivity.
@@ -90,28 +90,28 @@ Qed.
 
 Lemma edit_status_gen (kc vc : bool) :
   if vc return Prop
-  then (forall h data k v file', wf_header h -> has_layout h = true -> header_no_cont h = true -> value_no_cont v = true ->
+  then (forall h data k v file', wf_header h -> has_layout h = true -> header_no_cont h = true -> value_no_cont v = true -> value_utf8 v = true ->
           edit_header_with kc vc (fmt_header h ++ data) k v = Some file' -> edit_rewrites_value h data k v file')
        /\ (exists h data k v file', wf_header h /\ has_layout h = true /\
              edit_header_with kc vc (fmt_header h ++ data) k v = Some file' /\ parse_header file' = None)
-  else forall h data k v file', wf_header h -> has_layout h = true ->
+  else forall h data k v file', wf_header h -> has_layout h = true -> value_utf8 v = true ->
           edit_header_with kc vc (fmt_header h ++ data) k v = Some file' -> edit_rewrites_value h data k v file'.
 Proof.
   destruct vc.
   - split.
-    + intros h data k v file' Hw Hl C1 C2. apply edit_ok_bytes; auto.
+    + intros h data k v file' Hw Hl C1 C2 Hu. apply edit_ok_bytes; auto.
     + destruct (chars_mode_edit_refuted kc) as (f & E & P). destruct wf_h_ascii as (W & L & _).
       exists h_ascii, [1; 2; 3], k_rawdatafile, (VStr [195; 169; 97; 98]), f. auto.
-  - intros h data k v file' Hw Hl. apply edit_ok_bytes; auto.
+  - intros h data k v file' Hw Hl Hu. apply edit_ok_bytes; auto.
 Qed.
 
 Lemma edit_status :
   if vallen_chars return Prop
-  then (forall h data k v file', wf_header h -> has_layout h = true -> header_no_cont h = true -> value_no_cont v = true ->
+  then (forall h data k v file', wf_header h -> has_layout h = true -> header_no_cont h = true -> value_no_cont v = true -> value_utf8 v = true ->
           edit_header (fmt_header h ++ data) k v = Some file' -> edit_rewrites_value h data k v file')
        /\ (exists h data k v file', wf_header h /\ has_layout h = true /\
              edit_header (fmt_header h ++ data) k v = Some file' /\ parse_header file' = None)
-  else forall h data k v file', wf_header h -> has_layout h = true ->
+  else forall h data k v file', wf_header h -> has_layout h = true -> value_utf8 v = true ->
           edit_header (fmt_header h ++ data) k v = Some file' -> edit_rewrites_value h data k v file'.
 Proof. exact (edit_status_gen keylen_chars vallen_chars). Qed.
 
